@@ -94,7 +94,22 @@ def impl_case(case):
         dx = np.zeros(len(s2i)); I.py_calculate_deterministic_derivative(x.copy(), dx, pt["t"])
         ds.append([fhex(v) for v in dx])
         rates.append([float(p.py_get_propensity(x.copy(), np.array(M.get_parameter_values(), dtype=float), pt["t"])) for p in M.get_propensities()])
-    return {"order": order, "S": [int(v) for v in S.flatten()], "Sd": [int(v) for v in Sd.flatten()], "shape": list(S.shape),
+    # the matrices are a function of the reaction list only: a simulation run on the model in between must not change what it reports
+    # (seeded change S5_C03: the plain stochastic simulator added the delayed matrix to the model's own update array in place)
+    sim_done = False
+    # (only networks that cannot blow up in finite time: no reaction of order >= 2 makes more molecules than it takes)
+    def _tame(rx):
+        npr = len(rx["products"]) + len(rx.get("delay", {}).get("products", []))
+        return len(rx["reactants"]) <= 1 or npr <= len(rx["reactants"])
+    if any("delay" in rx for rx in case["spec"]["reactions"]) and all(rx["type"] == "massaction" and _tame(rx) for rx in case["spec"]["reactions"]):
+        from bioscrape.simulator import SSASimulator, SafeModelCSimInterface
+        from bioscrape.random import py_seed_random
+        try:
+            py_seed_random(7); Is = SafeModelCSimInterface(M); Is.py_set_initial_time(0.0); Is.py_set_dt(0.01)
+            SSASimulator().py_simulate(Is, np.array([0.0, 0.01, 0.02])); sim_done = True
+        except Exception: pass
+        S = np.asarray(M.py_get_update_array()); Sd = np.asarray(M.py_get_delay_update_array())
+    return {"order": order, "S": [int(v) for v in S.flatten()], "Sd": [int(v) for v in Sd.flatten()], "shape": list(S.shape), "read_after_a_simulation": sim_done,
             "deriv": ds, "rates": rates, "params": G.flist(M.get_parameter_values()),
             "props": [G.prop_tokens(M, i) for i in range(S.shape[1])], "s2i": s2i}
 
